@@ -11,9 +11,11 @@ isgit = subprocess.run(["git", "-C", REPO, "rev-parse", "--show-toplevel"], stdo
 patch = os.path.join(sd, "patch.diff")
 if isgit:
     assert subprocess.run(["git", "-C", REPO, "status", "--porcelain", "--untracked-files=no"], stdout=subprocess.PIPE).stdout.strip() == b"", "repo not clean"
-    r = subprocess.run(["git", "-C", REPO, "apply", "--3way", patch], stderr=subprocess.PIPE, universal_newlines=True)
+    r = subprocess.run(["git", "-C", REPO, "apply", patch], stderr=subprocess.PIPE, universal_newlines=True)
     if r.returncode:
-        r = subprocess.run(["git", "-C", REPO, "apply", patch], stderr=subprocess.PIPE, universal_newlines=True)
+        # line numbers drifted: three-way merge (which also stages the result - unstaged again right away)
+        r = subprocess.run(["git", "-C", REPO, "apply", "--3way", patch], stderr=subprocess.PIPE, universal_newlines=True)
+        subprocess.run(["git", "-C", REPO, "reset", "-q"])
 else:
     r = subprocess.run(["patch", "-p1", "-s", "-d", REPO, "-i", patch], stderr=subprocess.PIPE, stdout=subprocess.PIPE, universal_newlines=True)
 if r.returncode:
